@@ -130,7 +130,7 @@ pub enum Obs {
 	Api { step: u64, node: usize, call: String, result: String },
 	BlockConnected { step: u64, height: u32, txids: Vec<Txid> },
 	Relay { step: u64, node: usize, tx: Transaction, verdict: TxVerdict },
-	Restarted { step: u64, node: usize, stale: bool },
+	Restarted { step: u64, node: usize, stale: bool, stale_chans: Vec<usize> },
 	Unhandled { step: u64, node: usize, what: String },
 	Probe(Probe),
 }
@@ -177,10 +177,14 @@ pub struct World {
 	pub next_user_id: u128,
 	pub funding_txs: HashMap<Txid, Transaction>,
 	pub spendable: Vec<(usize, lightning::sign::SpendableOutputDescriptor)>,
-	/// number of monitor updates handed to chain::Watch so far, per (node, channel)
+	/// highest monitor update id handed to chain::Watch so far, per (node, channel)
 	pub watch_counts: HashMap<(usize, ChannelId), u64>,
 	/// per node: for each stored manager snapshot, the watch counts at the time it was taken
 	pub snapshot_counts: Vec<Vec<HashMap<ChannelId, u64>>>,
+	/// durable writes issued per node over the whole run (across restarts)
+	pub total_writes: Vec<u64>,
+	pub crashes_handled: u64,
+	pub writes_at_open: Vec<u64>,
 }
 
 fn lk(a: usize, b: usize) -> ((usize, usize), usize) {
@@ -197,7 +201,7 @@ impl World {
 		log.trace.store(trace && std::env::var("VERIF_TAP_TRACE").is_ok(), Ordering::Relaxed);
 		let best = BlockLocator::from_network(bitcoin::Network::Regtest);
 		let nodes: Vec<Node> = node_cfgs.into_iter().enumerate().map(|(i, c)| Node::new(i, c, &log, fee_now, best.clone())).collect();
-		World { rng: seed_rng, log, log_cursor: 0, nodes, chans: vec![], links: HashMap::new(), chain: Chain::new(), obs: VecDeque::new(), step: 0, claimable: vec![], payments: vec![], script: vec![], trace, fee_now, next_user_id: 1, funding_txs: HashMap::new(), spendable: vec![], watch_counts: HashMap::new(), snapshot_counts: vec![] }
+		World { rng: seed_rng, log, log_cursor: 0, nodes, chans: vec![], links: HashMap::new(), chain: Chain::new(), obs: VecDeque::new(), step: 0, claimable: vec![], payments: vec![], script: vec![], trace, fee_now, next_user_id: 1, funding_txs: HashMap::new(), spendable: vec![], watch_counts: HashMap::new(), snapshot_counts: vec![], total_writes: vec![], crashes_handled: 0, writes_at_open: vec![] }
 	}
 	pub fn note(&mut self, s: String) {
 		if self.trace {
@@ -246,7 +250,16 @@ impl World {
 		self.log_cursor += new.len();
 		for ev in new {
 			match &ev {
-				Ev::WatchNew { node, chan, .. } | Ev::WatchUpdate { node, chan, .. } => *self.watch_counts.entry((*node, *chan)).or_insert(0) += 1,
+				Ev::PersistNew { node, .. } | Ev::PersistUpdate { node, .. } => {
+					while self.total_writes.len() <= *node {
+						self.total_writes.push(0);
+					}
+					self.total_writes[*node] += 1;
+				},
+				Ev::WatchNew { node, chan, update_id, .. } | Ev::WatchUpdate { node, chan, update_id, .. } => {
+					let e = self.watch_counts.entry((*node, *chan)).or_insert(0);
+					*e = (*e).max(*update_id);
+				},
 				_ => {},
 			}
 			if let Ev::SignCounterparty { node, c, .. } = &ev {
@@ -509,9 +522,12 @@ impl World {
 					self.spendable.push((n, o.clone()));
 				}
 			},
-			Event::ChannelClosed { channel_id, .. } => {
+			Event::ChannelClosed { channel_id, reason, .. } => {
 				if let Some(c) = self.chans.iter_mut().find(|c| c.ids.contains(channel_id)) {
 					c.closed = true;
+					if matches!(reason, lightning::events::ClosureReason::OutdatedChannelManager) && c.fault.is_none() {
+						c.fault = Some("closed at restart: ChannelManager older than the monitor".into());
+					}
 				}
 			},
 			_ => {},
@@ -834,7 +850,7 @@ impl World {
 	/// stored snapshot) and, per channel, the durable monitor on the model disk. `reached_disk[i]`
 	/// says whether in-flight write i made it to the disk before the stop. Returns Err if reading
 	/// back fails (which is itself a finding the caller reports).
-	pub fn restart(&mut self, n: usize, snapshot: Option<usize>, reached_disk: &[bool]) -> Result<bool, String> {
+	pub fn restart(&mut self, n: usize, snapshot: Option<usize>, reached_disk: &[bool]) -> Result<Vec<usize>, String> {
 		use lightning::util::ser::Writeable;
 		// 1. what is on disk
 		let mut disk = std::mem::take(&mut *self.nodes[n].persister.disk.lock().unwrap());
@@ -859,6 +875,7 @@ impl World {
 				}
 			},
 		};
+		let stale_chans: Vec<usize> = vec![];
 		let monitors: Vec<(ChannelId, Vec<u8>)> = disk.durable.iter().map(|(c, w)| (*c, w.bytes.clone())).collect();
 		if self.trace {
 			for (c, w) in disk.durable.iter() {
@@ -892,12 +909,13 @@ impl World {
 			v.truncate(k + 1);
 		}
 		self.drain_taps();
-		self.obs.push_back(Obs::Restarted { step: self.step, node: n, stale });
+		let _ = stale;
+		self.obs.push_back(Obs::Restarted { step: self.step, node: n, stale: snapshot.is_some(), stale_chans: stale_chans.clone() });
 		// 4. bring every object to the chain tip from its own best block
 		self.resync_node(n);
 		self.pump(n);
 		self.process_events(n);
-		Ok(stale)
+		Ok(stale_chans)
 	}
 	pub fn snapshot(&mut self, n: usize) {
 		let step = self.step;
@@ -910,14 +928,6 @@ impl World {
 		if self.snapshot_counts[n].len() > 8 {
 			self.snapshot_counts[n].remove(0);
 		}
-	}
-	/// Channels of node n whose monitor has seen updates the k-th snapshot does not know about.
-	pub fn stale_channels(&self, n: usize, k: usize) -> Vec<usize> {
-		let empty = HashMap::new();
-		let counts = self.snapshot_counts.get(n).and_then(|v| v.get(k)).unwrap_or(&empty);
-		self.chans.iter().filter(|c| (c.a == n || c.b == n) && !c.closed).filter(|c| {
-			c.ids.iter().any(|id| self.watch_counts.get(&(n, *id)).cloned().unwrap_or(0) > counts.get(id).cloned().unwrap_or(0))
-		}).map(|c| c.idx).collect()
 	}
 	/// Replay blocks to a freshly loaded node: the manager and each monitor from their own best block.
 	pub fn resync_node(&mut self, n: usize) {
@@ -948,10 +958,19 @@ impl World {
 	// -----------------------------------------------------------------------------------------
 	/// Reconnect everything, complete all persistence, and run every queue dry. Returns false if
 	/// the step budget was exhausted (inconclusive, never a verdict).
+	pub fn any_dead(&self) -> bool {
+		self.nodes.iter().any(|n| n.persister.dead.load(Ordering::SeqCst))
+	}
 	pub fn settle(&mut self, budget: usize) -> bool {
+		if self.any_dead() {
+			return false; // a crashed node must be restarted first
+		}
 		let mut quiet_passes = 0;
 		let n = self.nodes.len();
 		for _pass in 0..budget {
+			if self.any_dead() {
+				return false; // a node died during this pass (armed crash): not a quiescent point
+			}
 			let mut did = 0usize;
 			let pairs: Vec<(usize, usize)> = self.chans.iter().filter(|c| !c.closed).map(|c| lk(c.a, c.b).0).collect();
 			for (a, b) in pairs {
@@ -978,7 +997,7 @@ impl World {
 			if did == 0 {
 				quiet_passes += 1;
 				if quiet_passes >= 2 {
-					return true;
+					return !self.any_dead();
 				}
 			} else {
 				quiet_passes = 0;
